@@ -34,6 +34,11 @@ def run(ctx):
         for un in (False, True):
             jobs += [('shd_%s_%s_w%d_%d' % (tag, a[0], w, un), src, a, w, 200, un, 300000) for tag, src, a in shared]
     ctx.stats['shared_defeat_function_programs'] = len(shared)
+    # every way of leaving a try body other than falling out of it or defeat (return with a defeat-computed value, break, continue)
+    exits = gen_special.try_exit_programs()
+    for w in ((2,) if ctx.quick else (2, 3, 4)):
+        jobs += [('tex_%s_%s_w%d' % (tag, a[0], w), src, a, w, 200, False, 300000) for tag, src, a in exits]
+    ctx.stats['try_exit_programs'] = len(exits)
     tally, bad, res = suites.differential(ctx, jobs, None, label='time-travel')
     bt = sum(1 for r in res.values() if 'src' in r and r['src'].backtracks > 0)
     ctx.stats['runs_with_backtracking'] = bt
